@@ -108,7 +108,8 @@ StepCycle(e) ==
   /\ unexpected' = e.unexpected
   /\ status' = IF e.err THEN "ControlError" ELSE status
   /\ loop' = LoopAfter(e)
-  /\ out' = [ev |-> "Cycle", cv |-> e.cv, req |-> e.req, err |-> e.err, wrote |-> e.wrote,
+  \* (a cycle during which somebody else wrote to the fan - "raced" - is exempt from the per-cycle formulas like a failed one)
+  /\ out' = [ev |-> "Cycle", cv |-> e.cv, req |-> e.req, err |-> e.err \/ e.raced, wrote |-> e.wrote,
              raised |-> raised, tp |-> e.unexpected - unexpected]
   /\ HCycle /\ H4Cycle
   \* conformance: is (this state, the observed next state) a step of the specification?
